@@ -50,6 +50,8 @@ var slowZone = map[string]bool{"drop": true, "slow": true, "glacial": true, "tcs
 
 const zoneAddr = "192.0.2.77"
 
+const coldZones = 10
+
 // ---------------------------------------------------------------- probe handler
 
 // probe sits in front of edns/cache/resolver. It never decodes the chain's
@@ -144,6 +146,7 @@ type sysEnv struct {
 	baseG   int // sdns goroutines after start-up + warm-up
 	baseAll int
 	nextID  uint32
+	cold    int
 	serial  int
 	maxLat  time.Duration
 	inline  bool
@@ -315,6 +318,20 @@ func newSysEnv(kind string, dedupTimeout time.Duration) *sysEnv {
 	e.uto = sysUpstreamTimeout
 	e.w = l3.NewWorld(false)
 	e.w.AddZone("test.", l3.ZoneOpts{})
+	// cold zones: healthy, never asked before, delegated WITHOUT glue to a
+	// name server whose address lives in the slow zone nsz.test.: requests for
+	// distinct names below one cold zone all need the same internal lookup
+	// (nsK.nsz.test. A), which the resolver's singleflight shares between
+	// their request trees while it is in flight
+	nsz := e.w.AddZone("nsz.test.", l3.ZoneOpts{})
+	nsz.Servers[0].SetBehaviour(l3.Behaviour{Delay: func(dns.Question, bool) time.Duration { return 150 * time.Millisecond }})
+	for i := 1; i <= coldZones; i++ {
+		f := fmt.Sprintf("cold%d", i)
+		host := fmt.Sprintf("cns%d.nsz.test.", i)
+		z := e.w.AddZone(f+".test.", l3.ZoneOpts{NSHosts: []string{host}, NoGlue: true})
+		z.Add("*."+f+".test. 60 IN A "+zoneAddr, "*."+f+".test. 60 IN TXT \"t\"")
+		nsz.Add(host + " 60 IN A " + z.Servers[0].IP.String())
+	}
 	for _, f := range faults {
 		z := e.w.AddZone(f+".test.", l3.ZoneOpts{})
 		z.Add("*."+f+".test. 60 IN A "+zoneAddr, "*."+f+".test. 60 IN TXT \"t\"")
@@ -474,6 +491,7 @@ type client struct {
 	eof     bool   // TCP: server closed the connection
 	errs    string // client-side error
 	cancelAfter time.Duration
+	startDelay  time.Duration
 	cancelled   bool
 }
 
@@ -788,12 +806,22 @@ func (e *sysEnv) build(g *group) {
 		for i := 1; i < g.n; i++ {
 			add(e.mk([]string{"udp", "tcp", "msg"}[i%3], g.zone, same, dns.TypeA), true)
 		}
-	case "cancellead": // distinct names of one zone share upstream lookups; one requester cancels
+	case "cancellead": // distinct names of one zone share the upstream lookups for it; the first requester cancels
+		if g.zone == "cold" { // a zone nobody asked about yet: the referral lookup is the shared one
+			if e.cold < coldZones {
+				e.cold++
+				g.zone = fmt.Sprintf("cold%d", e.cold)
+			} else {
+				g.zone = "lag"
+			}
+		}
 		c := e.mk("msg", g.zone, "c"+g.tag, dns.TypeA)
 		c.cancelAfter = 60 * time.Millisecond
 		add(c, false)
 		for i := 1; i < g.n; i++ {
-			add(e.mk([]string{"udp", "tcp"}[i%2], g.zone, lbl(i), dns.TypeA), true)
+			o := e.mk([]string{"udp", "tcp"}[i%2], g.zone, lbl(i), dns.TypeA)
+			o.startDelay = 8 * time.Millisecond
+			add(o, true)
 		}
 	case "hot": // a name answered before: the inline / wire hit path
 		for i := 0; i < g.n; i++ {
@@ -835,10 +863,10 @@ func (e *sysEnv) launch(gs []*group) {
 			switch c.kind {
 			case "udp":
 				wg.Add(1)
-				go func() { defer wg.Done(); e.runUDP(c, listen) }()
+				go func() { defer wg.Done(); time.Sleep(c.startDelay); e.runUDP(c, listen) }()
 			case "tcp":
 				wg.Add(1)
-				go func() { defer wg.Done(); e.runTCP([]*client{c}, listen, 0) }()
+				go func() { defer wg.Done(); time.Sleep(c.startDelay); e.runTCP([]*client{c}, listen, 0) }()
 			case "tcpclose":
 				wg.Add(1)
 				go func() { defer wg.Done(); e.runTCP([]*client{c}, listen, c.cancelAfter) }()
@@ -901,10 +929,10 @@ func (e *sysEnv) judge(gs []*group) verdict {
 					fail("sys/no-reply/expired-in-ingress-queue", fmt.Sprintf("%s name=%s id=%d", where, c.name, c.id))
 					continue
 				}
-				fail("sys/no-reply/"+where, fmt.Sprintf("name=%s id=%d other=%d eof=%v", c.name, c.id, c.other, c.eof))
+				fail("sys/no-reply/"+kind, fmt.Sprintf("%s name=%s id=%d other=%d eof=%v", where, c.name, c.id, c.other, c.eof))
 				continue
 			case len(c.replies) > 1:
-				fail("sys/duplicate-reply/"+where, fmt.Sprintf("name=%s id=%d n=%d", c.name, c.id, len(c.replies)))
+				fail("sys/duplicate-reply/"+kind, fmt.Sprintf("%s name=%s id=%d n=%d", where, c.name, c.id, len(c.replies)))
 				continue
 			}
 			r := c.replies[0]
@@ -915,21 +943,18 @@ func (e *sysEnv) judge(gs []*group) verdict {
 			case dns.RcodeSuccess:
 				nOK++
 				if r.ans != expectedAnswer(c) && !(g.pattern == "staged" && r.ans == c.name+" 0 in txt \"plain\"") {
-					fail("sys/wrong-answer/"+g.zone, fmt.Sprintf("name=%s got=%q", c.name, r.ans))
+					fail("sys/wrong-answer/"+g.pattern, fmt.Sprintf("%s name=%s got=%q", where, c.name, r.ans))
 				}
 			case dns.RcodeServerFailure:
 				nSF++
-				if recoverable[g.zone] && !e.small {
+				if (recoverable[g.zone] || strings.HasPrefix(g.zone, "cold")) && !e.small {
 					softHit = true
 				}
 			default:
-				fail("sys/failure-not-servfail/"+g.zone, fmt.Sprintf("name=%s rcode=%s", c.name, dns.RcodeToString[r.rcode]))
-			}
-			if r.at > e.qto+3*time.Second {
-				fail("sys/late-reply/"+where, fmt.Sprintf("after=%s", r.at))
+				fail("sys/failure-not-servfail", fmt.Sprintf("%s name=%s rcode=%s", where, c.name, dns.RcodeToString[r.rcode]))
 			}
 			if c.other > 0 {
-				fail("sys/foreign-message/"+where, fmt.Sprintf("name=%s n=%d", c.name, c.other))
+				fail("sys/foreign-message/"+kind, fmt.Sprintf("%s name=%s n=%d", where, c.name, c.other))
 			}
 		}
 		if softHit {
@@ -938,7 +963,7 @@ func (e *sysEnv) judge(gs []*group) verdict {
 		// cancelled / departed clients: never more than one reply either
 		for _, c := range g.clients {
 			if len(c.replies) > 1 {
-				fail("sys/duplicate-reply/"+g.pattern+"/"+c.kind+"/"+g.zone, fmt.Sprintf("name=%s id=%d n=%d (departed client)", c.name, c.id, len(c.replies)))
+				fail("sys/duplicate-reply/"+c.kind, fmt.Sprintf("%s/%s name=%s id=%d n=%d (departed client)", g.pattern, g.zone, c.name, c.id, len(c.replies)))
 			}
 		}
 		// replay bookkeeping of the probe handler (UDP only)
@@ -954,13 +979,13 @@ func (e *sysEnv) judge(gs []*group) verdict {
 			}
 			key := fmt.Sprintf("%d/%x", c.id, buf[:off])
 			if n := e.probe.replay[key]; n > 1 {
-				fail("sys/replayed-more-than-once/"+g.pattern, fmt.Sprintf("name=%s replays=%d", c.name, n))
+				fail("sys/replayed-more-than-once", fmt.Sprintf("%s name=%s replays=%d", g.pattern, c.name, n))
 			}
 			if g.pattern == "staged" && e.probe.replay[key] > 0 {
 				fail("sys/staged-reply-replayed", fmt.Sprintf("name=%s replays=%d", c.name, e.probe.replay[key]))
 			}
 			if e.probe.inline[key]+e.probe.plain[key] > 1 {
-				fail("sys/served-twice/"+g.pattern, fmt.Sprintf("name=%s inline=%d plain=%d", c.name, e.probe.inline[key], e.probe.plain[key]))
+				fail("sys/served-twice", fmt.Sprintf("%s name=%s inline=%d plain=%d", g.pattern, c.name, e.probe.inline[key], e.probe.plain[key]))
 			}
 		}
 		e.probe.mu.Unlock()
@@ -1039,25 +1064,42 @@ func execSys(f []string) vlib.Res {
 		}
 		e.launch(gs)
 		v := e.judge(gs)
-		// a SERVFAIL for a zone a conformant resolver can resolve, with ample
-		// capacity: only a failure if it reproduces (scheduling noise does not)
-		if v.fail == "" && len(v.soft) > 0 {
+		// Everything here runs in real time on a shared machine: a verdict
+		// counts only if it reproduces on a second, fresh run of the same
+		// groups (a stalled process does not strike the same way twice; a
+		// changed implementation does).  That covers the hard failures and
+		// the soft one (a SERVFAIL for a zone a conformant resolver resolves,
+		// with ample capacity).
+		if v.fail != "" || len(v.soft) > 0 {
+			first := v.fail
 			var again []*group
-			for _, g := range v.soft {
+			src := gs
+			if v.fail == "" {
+				src = v.soft
+			}
+			for _, g := range src {
 				e.serial++
-				g2 := &group{pattern: g.pattern, zone: g.zone, n: g.n, tag: fmt.Sprintf("r%d", e.serial)}
+				base := strings.SplitN(g.tag, "w", 2)[0]
+				g2 := &group{pattern: g.pattern, zone: g.zone, n: g.n, tag: fmt.Sprintf("%sr%d", base, e.serial)}
 				e.build(g2)
 				again = append(again, g2)
 			}
+			waitFor(3*time.Second, e.srv.Quiesced)
 			e.launch(again)
 			v2 := e.judge(again)
-			if v2.fail != "" {
+			switch {
+			case v2.fail != "":
 				v.fail = v2.fail
-			} else if len(v2.soft) > 0 {
+			case len(v2.soft) > 0 && first == "":
 				g := v2.soft[0]
-				v.fail = fmt.Sprintf("FAIL sig=sys/resolvable-zone-failed/%s/%s reproduced twice", g.pattern, g.zone)
+				v.fail = fmt.Sprintf("FAIL sig=sys/resolvable-zone-failed/%s zone=%s reproduced twice", g.pattern, g.zone)
+			default:
+				v.fail = ""
 			}
-			v.tags = append(v.tags, "soft-retry")
+			v.tags = append(v.tags, "retried")
+			if first != "" && v.fail == "" {
+				v.tags = append(v.tags, "unreproduced:"+strings.ReplaceAll(strings.Fields(first)[1], ",", "_"))
+			}
 		}
 		or := "ok"
 		if v.fail != "" {
@@ -1094,6 +1136,21 @@ func execSys(f []string) vlib.Res {
 			or = fmt.Sprintf("FAIL sig=sys/drain/goroutine-leak base=%d now=%d", e.baseG, g)
 		}
 		return vlib.Res{Impl: "drained", Oracle: or, Tags: fmt.Sprintf("nt,quiesce_ms=%d,g=%d,baseg=%d,gall=%d,maxlat_ms=%d", qd.Milliseconds(), g, e.baseG, all, e.maxLat.Milliseconds())}
+	case "log": // debugging aid: what one zone's server was asked
+		if env == nil || len(f) != 3 {
+			return vlib.Res{Impl: "bad-op"}
+		}
+		z := env.w.Zones[f[2]+".test."]
+		if f[2] == "tld" {
+			z = env.w.Zones["test."]
+		}
+		if f[2] == "nsz" {
+			z = env.w.Zones["nsz.test."]
+		}
+		if z == nil {
+			return vlib.Res{Impl: "bad-op"}
+		}
+		return vlib.Res{Impl: "log", Tags: strings.Join(z.Servers[0].Log, " | ")}
 	case "end":
 		closeAll()
 		return vlib.Res{Impl: "closed"}
@@ -1148,7 +1205,7 @@ func waitFor(max time.Duration, cond func() bool) bool {
 			return true
 		}
 		if time.Now().After(dl) {
-			return false
+			return cond()
 		}
 		time.Sleep(10 * time.Millisecond)
 	}
